@@ -413,19 +413,25 @@ def _run_variant(runner, var, script, mod, fn, rec):
         elif var["mode"] in ("ovprobe", "catprobe"):
             env = {runner.name: fn}
             p = probing(sel_text(runner.name, var["sels"][0]), env=env, overridable=True)
+            seen = []          # what the pipeline of the overriding probe is handed (an event like any other)
+            p.subscribe(lambda d: seen.append(sorted([k, rt2.enc(v)] for k, v in d.items())))
             p.override(var["supply"])
             with p:
                 rec["log"], rec["result"] = runner.call(mod, fn, script)
+            rec["streams"] = [seen]
         elif var["mode"] == "ovseq":
             env = {runner.name: fn}
             state = {"on": True}
             p = probing(sel_text(runner.name, var["sels"][0]), env=env, overridable=True)
+            seen = []
+            p.subscribe(lambda d: seen.append(sorted([k, rt2.enc(v)] for k, v in d.items())))
             p.filter(lambda data: state["on"]).override(var["supply"])
             with p:
                 log1, res1 = runner.call(mod, fn, script)
+                n1 = len(seen)
                 state["on"] = False
                 log2, res2 = runner.call(mod, fn, script)
-            return [dict(rec, mode="ovseq1", log=log1, result=res1), dict(rec, mode="ovseq2", log=log2, result=res2)]
+            return [dict(rec, mode="ovseq1", log=log1, result=res1, streams=[seen[:n1]]), dict(rec, mode="ovseq2", log=log2, result=res2, streams=[seen[n1:]])]
         elif var["mode"] == "catplain":
             env = {runner.name: fn}
             p = probing(sel_text(runner.name, var["sels"][0]), env=env, raw=True)
